@@ -449,6 +449,12 @@ class FaultedHistories(SubCheck):
             chosen = [pool[case['pick'] % len(pool)]] if pool and case['fault_kind'] != 'none' else []
         else:
             chosen = sites
+            if len(chosen) > 600:
+                # a history with bulk writes has thousands of fault sites and every one replays the whole history: an evenly
+                # spaced sample (rotated by the case's pick) keeps one case within minutes
+                step = -(-len(chosen) // 600)
+                chosen = chosen[case['pick'] % step :: step]
+                classes['fault-sites-capped'] = 1
         for site in chosen:
             try:
                 inj2, state2, problems2 = watched(lambda: run_history(env, case, site), 60, 'C08', 'faulted_histories')
